@@ -8,7 +8,7 @@ use crate::engine::{Ctx, Knobs, Plan, PlanKind, Property, Src, Tier, Verdict};
 use crate::gen::render::ItemKind;
 use crate::indep::xmltok;
 use crate::model::ANode;
-use crate::props::c02::{make_case, node_at};
+use crate::props::c02::{make_case_opts, node_at};
 use crate::props::c03::damage;
 use crate::props::common::{same_tree, Cmp};
 
@@ -82,7 +82,7 @@ impl Property for C17 {
     fn check(&self, src: &mut Src, ctx: &mut Ctx) -> Verdict {
         let variant = ctx.knobs.variant;
         let fragment = variant == 1 || (variant == 2 && src.bool());
-        let case = match make_case(src, &ctx.knobs, fragment, false, true) {
+        let case = match make_case_opts(src, &ctx.knobs, fragment, false, true, true) {
             Ok(c) => c,
             Err(_) => return Verdict::Pass,
         };
